@@ -53,7 +53,7 @@ func AddAttacks(g *Generated, r *rand.Rand, attackers []string) *Attack {
 		a.Victims[v.ID] = true
 		k++
 		base := fmt.Sprintf("https://%s/evil/%d-%d", ah, labelCounterNext(), k)
-		switch r.Intn(27) {
+		switch r.Intn(31) {
 		case 0: // a note of the attacker that embeds a forged copy as its parent and as its author
 			g.SetDoc(base, map[string]any{"id": base, "type": "Note", "name": "EVILNOTE", "content": "<p>own</p>", "inReplyTo": forgedCopy(v, ah, k), "attributedTo": forgedCopy(victims[r.Intn(len(victims))], ah, k)})
 			a.Forgeries += 2
@@ -178,6 +178,21 @@ func AddAttacks(g *Generated, r *rand.Rand, attackers []string) *Attack {
 			}
 			g.SetRaw(base, []byte("HTTP/1.1 200 OK\r\nContent-Type: application/activity+json\r\n\r\n"+string(body)+pad))
 			a.Forgeries++
+		case 27, 28: // a stub that names an address on the attacker's own host, where a complete forgery of the victim's object is served
+			forged := base + "/behind-stub"
+			g.SetDoc(forged, forgedCopy(v, ah, k))
+			g.SetDoc(base, map[string]any{"id": base, "type": "Note", "name": "EVILSTUB", "content": "<p>x</p>", "published": "2024-01-01T00:00:00Z",
+				"inReplyTo": map[string]any{"id": forged, "type": "Note"}, "attributedTo": []any{map[string]any{"id": forged}}})
+			g.SetDoc(base+"/coll", map[string]any{"id": base + "/coll", "type": "OrderedCollection", "totalItems": 1.0, "orderedItems": []any{map[string]any{"id": forged, "type": "Note"}}})
+			a.Entries = append(a.Entries, base+"/coll")
+			a.Forgeries += 2
+		case 29, 30: // the victim's redirecting address leads to an attacker document that has no id at all: it is nobody's on the victim's host
+			open := fmt.Sprintf("https://%s/open-redirect?anon=%d-%d", v.Host, labelCounterNext(), k)
+			anon := base + "/anon-actor"
+			g.SetDoc(anon, map[string]any{"type": "Person", "name": "ANONACTOR of " + ah, "preferredUsername": "anon", "summary": "<p>an actor without an id</p>"})
+			g.SetRedirect(open, anon)
+			g.SetDoc(base, map[string]any{"id": base, "type": "Announce", "actor": open, "published": "2024-01-01T00:00:00Z", "object": map[string]any{"type": "Note", "name": "EVILANON", "content": "<p>x</p>", "attributedTo": open}})
+			a.Entries = append(a.Entries, open)
 		case 8: // ping-pong: the attacker's document names the victim's id, the victim's real document is fine
 			g.SetDoc(base, map[string]any{"id": v.ID, "type": "Note", "name": v.Label + "X ZZFORGERY by " + ah, "content": "<p>forged</p>", "replies": map[string]any{"id": v.ID + "/fake-replies", "type": "Collection", "items": []any{forgedCopy(v, ah, k)}}})
 			a.Forgeries += 2
